@@ -6,11 +6,15 @@ CHECK = dict(
     assumptions=[
         "the main run uses a model GeoIP database; a second run uses geoip.File on the repository's test MMDB files (few networks), where only membership in the database's own answers is judged",
         "clock not advanced: TTL 300 answers never expire within a case (expiry is C04's subject)",
+        "cmd unit: cache capacities and paths of the built geoip.File and the period of its refresh worker are read from unexported fields (verif.local/harness/vpeek; the ticker period at an offset validated at run time); a changed layout is inconclusive, not a verdict",
     ],
     units=[
         dict(name="dnssvc", dir="internal/dnssvc", src="C05/dnssvc", runs=[
             dict(name="history", run="^TestVerifC05History$", quick=2500, thorough=400000, shards_thorough=12),
             dict(name="realgeoip", run="^TestVerifC05RealGeoIP$", quick=1000, thorough=100000, shards_thorough=6),
+        ]),
+        dict(name="cmd", dir="internal/cmd", src="C05/cmd", runs=[
+            dict(name="geoip-config", run="^TestVerifC05CmdGeoIP$", quick=200, thorough=4000, shards_quick=1, shards_thorough=2),
         ]),
     ],
 )
